@@ -146,6 +146,11 @@ def build_kmodel(force=False):
             for it in se.group(1).split():
                 if it not in items:
                     items.append(it)
+    # the modules to extract must be compiled against the CURRENT Gen files (a check only rebuilds its own closure)
+    targets = ["theories/%s.vo" % m.replace(".", "/") for m in mods]
+    rc, out = run_cmd(["make", "-j", str(min(16, os.cpu_count() or 4))] + targets, cwd=COQ, timeout=3000)
+    if rc:
+        return False, "build of the modules to extract failed:\n" + out[-3000:]
     allv = os.path.join(ext, "ExtractAll.v")
     with open(allv, "w") as f:
         f.write("From Coq Require Import Extraction ExtrOcamlBasic ExtrOcamlNativeString.\n")
@@ -464,6 +469,12 @@ def main(argv):
         print("replay: property %s on this input" % ("HOLDS" if ok else "FAILS"))
         return 0 if ok else 1
 
+    def lap(what, _t=[time.time()]):
+        now = time.time()
+        print("[%s] %-12s %.1fs" % (prop, what, now - _t[0]))
+        sys.stdout.flush()
+        _t[0] = now
+
     # 1 hygiene
     for p in hygiene():
         ctx.tie_broken("hygiene: " + p)
@@ -474,6 +485,7 @@ def main(argv):
                 ctx.tie_broken("translator refused: " + r)
         except Exception as e:  # noqa
             ctx.tie_broken("translator crashed: %r" % e, traceback.format_exc())
+        lap("translate")
         # 3 prove
         try:
             ok, out, assumptions = prove(prop, clean=(tier == "thorough" and os.environ.get("VERIF_NO_CLEAN") != "1"))
@@ -497,6 +509,7 @@ def main(argv):
             m = re.search(r'File "\./(theories/[^"]+)", line (\d+)', out)
             where = (m.group(1) + ":" + m.group(2)) if m else "?"
             ctx.tie_broken("Coq build of the closure of Props/%s.v failed at %s" % (prop, where), tail)
+        lap("prove")
         for s in check_digests():
             ctx.tie_broken(s)
         # extraction
@@ -510,6 +523,7 @@ def main(argv):
             ctx.coverage_extra["coqchk"] = cout[-3000:]
             if rc:
                 ctx.tie_broken("coqchk rejected Props/%s.vo" % prop, cout[-2000:])
+    lap("kmodel")
     if kok:
         from harness.kmodel import KModel
         ctx.km = KModel()
@@ -522,6 +536,7 @@ def main(argv):
     finally:
         if ctx.km:
             ctx.km.close()
+    lap("run")
     rc = 0
     if ctx.violations:
         rc = 1
